@@ -12,6 +12,7 @@ func VerifC05_Abbrev() {
 	spelling := vInt("spelling", 0, 2) // 0: --p   1: -p (Normal)   2: -p one letter (Bundling)
 	alias := vBool("alias")            // n3 is an alias of option 1 instead of an option of its own
 	incmd := vBool("incmd")            // used after a command token (options inherited from the root)
+	ro := vBool("ro")                  // require-order does not change how an option text is resolved
 	n1, n2, n3 := vString("n1"), vString("n2"), vString("n3")
 	p := vString("p")
 	v := positional("v", "cmd")
@@ -31,6 +32,9 @@ func VerifC05_Abbrev() {
 
 	opt := New()
 	setMode(opt, mode)
+	if ro {
+		opt.SetRequireOrder()
+	}
 	var o1, o2, o3 *string
 	if alias {
 		o1 = opt.String(n1, "d1", opt.Alias(n3))
@@ -93,6 +97,14 @@ func VerifC05_Abbrev() {
 		vReach("ambiguous")
 		return
 	default:
+		if ro {
+			// an unknown option is where require-order stops: handed over, not an error
+			vAssert("unknown/handed-over", err == nil && len(remaining) == 2)
+			vAssert("unknown/o1-unchanged", *o1 == "d1")
+			vAssert("unknown/o2-unchanged", *o2 == "d2")
+			vReach("unknown")
+			return
+		}
 		vAssert("unknown/error", err != nil) // default unknown mode: Fail
 		vAssert("unknown/o1-unchanged", *o1 == "d1")
 		vAssert("unknown/o2-unchanged", *o2 == "d2")
